@@ -5,4 +5,5 @@ CONSTANTS
   MaxNew = 2
 CONSTRAINT Short
 INVARIANT ExportShort
+INVARIANT ExportUsed
 CHECK_DEADLOCK FALSE
